@@ -134,7 +134,7 @@ def parseOp (n : Names) : Nat → List String → Option (Op × List String)
     | "craise" :: rest =>
       let ws := rest.takeWhile (· != ")")
       -- (`<>` stands for the `()` of an efun name in a message: parentheses delimit ops)
-      some (.craise ((" ".intercalate ws).replace "<>" "()"), rest.dropWhile (· != ")"))
+      some (.craise ((((" ".intercalate ws).replace "<>" "()").replace "<" "(").replace ">" ")"), rest.dropWhile (· != ")"))
     | "throw" :: t :: rest => some (.throw_ t, rest)
     | "limit" :: rest => some (.raiseLimit, rest)
     | "load" :: rest => body rest .load
@@ -199,7 +199,7 @@ def probeText (n : Names) (baseCg : Val) (m : M) (hbObj : Option Val := none) : 
   let hb : String := match hbObj with
     | some t => if m.hbOff.contains t then "0" else "1"
     | none => "0"
-  s!"caught *probe-err ; probe lit=2 lc=3 ve=5 tp={n.nameOf baseCg} po=0 d=0 l=0 a=3,4 e=*probe-err  co=42 side in={inp} hb={hb}"
+  s!"caught *probe-err ; probe lit=2 lc=3 ve=5 tp={n.nameOf baseCg} po=0 d=0 l=0 a=3,4 e=*probe-err  co=42 bal=1 side in={inp} hb={hb}"
 
 def joinSemi (xs : List String) : String := " ; ".intercalate xs
 
